@@ -446,6 +446,37 @@ def has_inheritance_cycle(s):
     return False
 
 
+ANALYSIS = {"textDocument/diagnostic", "textDocument/definition", "textDocument/completion",
+            "textDocument/prepareTypeHierarchy", "typeHierarchy/subtypes", "typeHierarchy/supertypes"}
+
+
+def concurrent_same_document(s, missing):
+    """the unanswered requests are >= 2 pipelined analysis requests about ONE document, a diagnostic among
+    them: the shape of the publication race of C03 (a second annotation replaces the published tree while
+    the first request already walks it; recursive read lock vs pending write lock)"""
+    by_id = {m["id"]: m for m in s.msgs if m["k"] == "req"}
+    ms = [by_id[i] for i in missing if i in by_id]
+    if len(ms) < 2 or len(ms) != len(missing):
+        return False
+    if any(m["method"] not in ANALYSIS for m in ms):
+        return False
+    if len({m["target"] for m in ms}) != 1:
+        return False
+    return any(m["method"] == "textDocument/diagnostic" for m in ms)
+
+
+KNOWN_HANGS = ("C01:hang-inheritance-cycle", "C01:hang-concurrent-analysis-same-document")
+
+
+def hang_signature(s, obs, ids):
+    missing = [i for i in ids if len(obs["responses"].get(str(i), [])) == 0]
+    if has_inheritance_cycle(s):
+        return "C01:hang-inheritance-cycle"
+    if concurrent_same_document(s, missing):
+        return "C01:hang-concurrent-analysis-same-document"
+    return None
+
+
 def panic_signature(obs):
     msg = obs.get("panic_msg", "")
     if "document_service.rs" in msg and ("NotFound" in msg or "No such file" in msg):
@@ -473,7 +504,7 @@ def evaluate(s, obs):
                 sig = "C01:no-answer-still-busy"
             elif obs.get("alive") or ending != "none":
                 # alive and idle (or stopped) and the request was never answered
-                sig = "C01:hang-inheritance-cycle" if has_inheritance_cycle(s) else "C01:hang"
+                sig = hang_signature(s, obs, ids) or "C01:hang"
             else:
                 sig = "C01:server-died"
             fails.append((sig, "request #%s (%s) was never answered" % (i, m.get("method", "shutdown"))))
@@ -493,8 +524,7 @@ def evaluate(s, obs):
                           "the process ended (status %s) although nobody told it to exit" % obs.get("status")))
     elif ending in ("shutdown-exit", "exit"):
         if obs["alive"]:
-            fails.append(("C01:hang-inheritance-cycle" if has_inheritance_cycle(s) else "C01:no-exit",
-                          "the process is still running after exit"))
+            fails.append((hang_signature(s, obs, ids) or "C01:no-exit", "the process is still running after exit"))
         elif obs.get("status") != 0:
             fails.append(("C01:exit-status" if not obs.get("panicked") else panic_signature(obs),
                           "exit status %s after %s" % (obs.get("status"), ending)))
@@ -544,7 +574,7 @@ def run(ctx):
     if not ctx.build_repo_bin():
         return ctx.finish(rule=RULE)
     os.makedirs(WS, exist_ok=True)
-    n = 150 if ctx.tier == "quick" else 3000
+    n = 300 if ctx.tier == "quick" else 12000
     maxlen = 30 if ctx.tier == "quick" else 120
     scripts = [Script.from_json(c) for c in CORPUS]
     for _ in range(n):
@@ -576,8 +606,8 @@ def run(ctx):
         if ids:
             import hashlib
             ctx.distinct.add(hashlib.md5((line.split(" ; ")[1] + impl).encode()).digest())
-        if has_inheritance_cycle(s):
-            ctx.count("cyclic inheritance (not compared with the model)")
+        if any(sig in KNOWN_HANGS for sig, _ in fails):
+            ctx.count("known hang (not compared with the model)")
         elif not match_any(impl, mod):
             bad += 1
             if len(ctx.disagreements) < 50:
